@@ -123,6 +123,54 @@ func CheckFrames(res *fw.Result, frames []px.Frame, sig string) {
 	}
 }
 
+// CheckAnswers applies the correlation monitor to the wire: on every connection, the response frames under
+// an id are no more than the requests that travelled the opposite way on that same connection under that id
+// (ids compared as JSON text).  The proxy logs a frame after forwarding it, so the log of the two directions
+// is not causally ordered: the check is on the multisets, not on the order.
+func CheckAnswers(res *fw.Result, frames []px.Frame, sig string) {
+	type key struct {
+		conn int
+		dir  string // direction of the request
+		id   string
+	}
+	reqs, resps := map[key]int{}, map[key]int{}
+	sample := map[key]string{}
+	other := map[string]string{"c2s": "s2c", "s2c": "c2s"}
+	for _, f := range frames {
+		if f.Index < 0 {
+			continue
+		}
+		var m map[string]json.RawMessage
+		if json.Unmarshal([]byte(f.Text), &m) != nil {
+			continue // malformed frames are CheckFrames' business
+		}
+		id, hasID := m["id"]
+		if !hasID || string(id) == "null" {
+			continue
+		}
+		if _, isReq := m["method"]; isReq {
+			reqs[key{f.Conn, f.Dir, string(id)}]++
+			continue
+		}
+		k := key{f.Conn, other[f.Dir], string(id)}
+		resps[k]++
+		res.Count("wire.response")
+		if sample[k] == "" {
+			sample[k] = f.Text
+			if len(f.Text) > 200 {
+				sample[k] = f.Text[:200] + "…"
+			}
+		}
+	}
+	for k, n := range resps {
+		if n > reqs[k] {
+			res.Add(fw.Finding{Kind: "monitor", Signature: sig + " more responses than requests",
+				Detail: fmt.Sprintf("connection %d carries %d response(s) under id %s but only %d request(s) with that id travelled the other way (%s) on it", k.conn, n, k.id, reqs[k], k.dir),
+				Case:   map[string]interface{}{"frame": sample[k]}})
+		}
+	}
+}
+
 // PongCut drives the schedule "a peer ping is pending when the connection loss is noticed": main is
 // held while handling a request, a server ping arrives, the connection is cut, main is released and
 // finds both the pong token and the closed reader ready.  (Used by the race-detector run: the
@@ -323,6 +371,7 @@ func one(d *fw.Driver, res *fw.Result, seed int64, round int, thorough bool) err
 	default:
 	}
 	CheckFrames(res, frames, sig)
+	CheckAnswers(res, frames, sig)
 	if err := CheckLocks(d, res, evs, sig); err != nil {
 		return err
 	}
